@@ -57,15 +57,16 @@ func InjectedErr(kind string) error {
 
 // ReaderPlan is the explicit, replayable configuration of a simulated source.
 type ReaderPlan struct {
-	Kind      string `json:"kind"`                 // "string" | "bytes" | "scanner" | "reader"
-	FaultAt   int    `json:"fault_at"`             // rune-start byte offset (scanner) / byte offset (reader); -1: none
-	FaultKind string `json:"fault_kind,omitempty"` // "persistent" | "transient" | "zero-progress" (reader only)
-	Unread    string `json:"unread,omitempty"`     // scanner: "strict" (default) | "multi"
-	Chunk     int    `json:"chunk,omitempty"`      // reader: max bytes per Read (0: unlimited); -1: seeded random sizes
-	ChunkSeed uint64 `json:"chunk_seed,omitempty"`
-	DataErr   bool   `json:"data_err,omitempty"`   // reader: deliver the bytes before the fault together with the error
-	ErrKind   string `json:"err_kind,omitempty"`   // "" plain error | "wraps-eof" | "unexpected-eof"
-	FaultCall int    `json:"fault_call,omitempty"` // scanner: fail the n-th ReadRune call (1-based; persistent: from that call on, transient: that call only), whatever the offset — e.g. the re-read after an UnreadRune
+	Kind        string `json:"kind"`                 // "string" | "bytes" | "scanner" | "reader"
+	FaultAt     int    `json:"fault_at"`             // rune-start byte offset (scanner) / byte offset (reader); -1: none
+	FaultKind   string `json:"fault_kind,omitempty"` // "persistent" | "transient" | "zero-progress" (reader only)
+	Unread      string `json:"unread,omitempty"`     // scanner: "strict" (default) | "multi"
+	Chunk       int    `json:"chunk,omitempty"`      // reader: max bytes per Read (0: unlimited); -1: seeded random sizes
+	ChunkSeed   uint64 `json:"chunk_seed,omitempty"`
+	DataErr     bool   `json:"data_err,omitempty"`      // reader: deliver the bytes before the fault together with the error
+	ErrKind     string `json:"err_kind,omitempty"`      // "" plain error | "wraps-eof" | "unexpected-eof"
+	FaultCall   int    `json:"fault_call,omitempty"`    // scanner: fail the n-th ReadRune call (1-based; persistent: from that call on, transient: that call only), whatever the offset — e.g. the re-read after an UnreadRune
+	RuneWithErr bool   `json:"rune_with_err,omitempty"` // scanner: the failing ReadRune returns the rune at that position TOGETHER with the error (r, size>0, err)
 }
 
 // SimReader is an io.RuneScanner over a fixed text with fault injection.
@@ -149,6 +150,12 @@ func (r *SimReader) ReadRune() (rune, int, error) {
 			after := r.S.noteIO(EvRead, "ReadRune!err", r.pos, 0)
 			if !after {
 				r.FiredRet = true
+			}
+			if r.Plan.RuneWithErr && r.pos < len(r.Src) {
+				// like an io.Reader returning n>0 together with the error: the last decodable rune comes with it
+				c, size := utf8.DecodeRuneInString(r.Src[r.pos:])
+				r.pos += size
+				return c, size, InjectedErr(r.Plan.ErrKind)
 			}
 			return 0, 0, InjectedErr(r.Plan.ErrKind)
 		}
